@@ -185,3 +185,8 @@ package oidc
 //@ func oidc.VerifyCodeChallenge
 //@   modifies nothing
 //@   ensures iff: result <==> challengeMatches(c, codeVerifier)
+
+// ---- C15 ----
+//@ func oidc.TokenType.IsSupported
+//@   modifies nothing
+//@   ensures listed: result <==> contains(AllTokenTypes, t)
